@@ -227,7 +227,7 @@ func copyDir(src, dst string) {
 var caseNo int
 
 func TestMetricLog(t *testing.T) {
-	hx.Check(t, hx.N{Quick: 400, Thorough: 4000}, func(t *rapid.T, c *hx.Case) {
+	hx.Check(t, hx.N{Quick: 800, Thorough: 12000}, func(t *rapid.T, c *hx.Case) {
 		caseNo++
 		dir := filepath.Join(root, fmt.Sprintf("%s-%d", os.Getenv("VERIF_SHARD"), caseNo))
 		os.MkdirAll(dir, 0o755)
